@@ -15,7 +15,7 @@ EXPLANATION = ("Real ofp_match.unpack/matches_with_wildcards/get_nw_*/IPAddr.inN
 FUNCTIONS = ["ofp_match.unpack/_unwire_wildcards/_normalize_wildcards/matches_with_wildcards/get_nw_src/get_nw_dst/__getattr__/is_wildcarded/from_packet",
              "IPAddr.inNetwork/toUnsigned", "FlowTable.add_entry/entry_for_packet", "TableEntry.effective_priority"]
 BOUNDS = {}
-OUTSIDE = ["tables with more than 3 entries", "IP ToS values with ECN bits set (OpenFlow 1.0 only defines the 6 DSCP bits)", "LLC/SNAP framing, IGMP/GRE payloads", "frame-level field extraction for VLAN-in-VLAN / IP options beyond IHL 6",
+OUTSIDE = ["tables with more than 3 entries", "IP ToS values with ECN bits set (OpenFlow 1.0 only defines the 6 DSCP bits)", "VLAN tag inside LLC/SNAP, IP inside SNAP, IGMP/GRE payloads", "frame-level field extraction for VLAN-in-VLAN / IP options beyond IHL 6",
            "wire matches whose wildcarded dl_type / nw_proto field is non-zero"]
 ASSUMPTIONS = ["packet tuples have the shape ofp_match.from_packet produces (kinds: IPv4 with/without transport ports, ARP, other ethertype)"]
 
@@ -259,6 +259,21 @@ def h_extract(ctx, kind, tagged):
     exp.update(dl_type=0x0806)
     if bool(op <= 255): exp.update(nw_proto=op, nw_src=num(spa), nw_dst=num(tpa), nw_tos=None, tp_src=None, tp_dst=None)
     else: exp.update({k: None for k in absent})
+  elif kind in ('llc', 'snap'):
+    # 802.3 frame (length field < 0x600): with a SNAP header whose OUI is 0 the SNAP ethertype is the dl_type, otherwise 0x05ff (OpenFlow 1.0 sec. 3.4)
+    et = ctx.int('ethertype', 0x0600, 0xffff)
+    for v in (0x0800, 0x0806, 0x8035, 0x8100, 0x88cc, 0x888e, 0x8847, 0x8848, 0x86dd): ctx.assume(et != v)
+    if kind == 'snap':
+      oui = list(ctx.bytes('oui', 3))
+      b += [0x00, 0x40, 0xaa, 0xaa, 0x03] + oui + be(et, 2) + list(ctx.bytes('pay', 4))
+      exp.update(dl_type=Ite(And(oui[0] == 0, oui[1] == 0, oui[2] == 0), et, 0x05ff))
+      if bool(And(oui[0] == 0, oui[1] == 0, oui[2] == 0)): ctx.witness('snap-oui0')
+    else:
+      dsap = ctx.int('dsap', 0, 255); ssap = ctx.int('ssap', 0, 255)
+      ctx.assume(Not(And((dsap & 0xfe) == 0xaa, (ssap & 0xfe) == 0xaa)))
+      b += [0x00, 0x40, dsap, ssap, 0x03] + list(ctx.bytes('pay', 6))
+      exp.update(dl_type=0x05ff)
+    exp.update({k: None for k in absent})
   else:
     et = ctx.int('ethertype', 0x0600, 0xffff)
     for v in (0x0800, 0x0806, 0x8035, 0x8100, 0x88cc, 0x888e, 0x8847, 0x8848, 0x86dd): ctx.assume(et != v)
@@ -287,8 +302,8 @@ def obligations(tier):
   return [
     Obligation('O1_matcher', h_matcher, [dict(kind=k, tied=not thorough) for k in kinds], witnesses=('matched', 'nomatch'),
                desc='matches_with_wildcards(flow, packet) <=> OpenFlow 1.0 predicate, flow decoded from symbolic wire bytes'),
-    Obligation('O2_extract', h_extract, [dict(kind=k, tagged=t) for k in ('ip', 'arp', 'other') for t in (False, True)],
-               witnesses=('extracted', 'fragment', 'ports', 'icmp'), max_decisions=20000,
+    Obligation('O2_extract', h_extract, [dict(kind=k, tagged=t) for k in ('ip', 'arp', 'other') for t in (False, True)] + [dict(kind='llc', tagged=False), dict(kind='snap', tagged=False)],
+               witnesses=('extracted', 'fragment', 'ports', 'icmp', 'snap-oui0'), max_decisions=20000,
                desc='from_packet field extraction vs byte-offset extractor: VLAN tag, ARP, ICMP type/code, fragments (MF or offset) zero the ports'),
     Obligation('O3_lookup', h_lookup, [dict(n=k) for k in range(1, (3 if thorough else 2) + 1)], witnesses=('hit', 'miss'),
                desc='table sorted after every add_entry; lookup returns a matching entry of maximal effective priority; miss iff none'),
